@@ -2347,13 +2347,15 @@ def fast_nonMarkov_SIR(G, trans_time_fxn=None,
     
     for u in initial_infecteds:
         pred_inf_time[u] = tmin
-        Q.add(tmin, _process_trans_SIR_, args=(G, None, u, times, S, I, R, Q, 
+    for u in initial_infecteds: 
+        #processed directly rather than through Q, which would drop them
+        #(and return empty arrays) if tmax<=tmin.
+        _process_trans_SIR_(tmin, G, None, u, times, S, I, R, Q, 
                                                     status, rec_time, 
                                                     pred_inf_time, transmissions, 
                                                     trans_and_rec_time_fxn,
                                                     trans_and_rec_time_args
                                                 )
-                        )
     
     #Note that when finally infected, pred_inf_time is correct
     #and rec_time is correct.  
@@ -2781,11 +2783,11 @@ def fast_SIS(G, tau, gamma, initial_infecteds=None, rho = None, tmin=0, tmax=100
     recovery_times = defaultdict(lambda: [])
     transmissions = []
     for u in initial_infecteds:
-        Q.add(tmin, _process_trans_SIS_Markov, 
-                            args = (G, None, u, times, 
+        #processed directly rather than through Q, which would drop them
+        #(and return empty arrays) if tmax<=tmin.
+        _process_trans_SIS_Markov(tmin, G, None, u, times, 
                                     S, I, Q, status, rec_time, infection_times, recovery_times, 
                                     transmissions, trans_rate_fxn, rec_rate_fxn)
-                        )
     while Q:
         Q.pop_and_run()
 
@@ -2973,7 +2975,9 @@ def fast_nonMarkov_SIS(G, trans_time_fxn=None, rec_time_fxn=None,
     transmissions = []
     
     for u in initial_infecteds:
-        Q.add(tmin, _process_trans_SIS_nonMarkov_, args=(G, 
+        #processed directly rather than through Q, which would drop them
+        #(and return empty arrays) if tmax<=tmin.
+        _process_trans_SIS_nonMarkov_(tmin, G, 
                                                         None, u, [], times, S, I, Q, 
                                                         status, rec_time, 
                                                         infection_times, recovery_times,
@@ -2981,7 +2985,6 @@ def fast_nonMarkov_SIS(G, trans_time_fxn=None, rec_time_fxn=None,
                                                         trans_and_rec_time_fxn,
                                                         trans_and_rec_time_args
                                                     )
-                )
                     
     while Q:  #all the work is done in this while loop.
         Q.pop_and_run()
